@@ -81,6 +81,9 @@ func Generate(r *sim.Rng, prop, tier string, idx int) *sim.Case {
 	default:
 		genC05(r, c, tier, idx)
 	}
+	if r.Chance(1, 5) {
+		c.Knobs["wrap_errors"] = 1 // a storage that annotates its errors (errors.Is still identifies them)
+	}
 	hangs := false
 	for _, f := range c.Faults {
 		if f.Kind == "stall_lost" || f.Kind == "stall" {
